@@ -208,6 +208,7 @@ func genC13(p *Pkg) (map[string]string, error) {
 		{"objectGoReflect._put: detaches the cached field wrapper", "objectGoReflect", "_put", callsFn("copyReflectValueWrapper")},
 		{"objectGoReflect._put: re-attaches the wrapper when the conversion fails", "objectGoReflect", "_put", callsFn("setReflectValue")},
 		{"objectGoReflect._put: drops the cache entry after a successful store", "objectGoReflect", "_put", callsFn("delete")},
+		{"copyReflectValueWrapper: re-points the wrapper through setReflectValue", "", "copyReflectValueWrapper", callsFn("setReflectValue")},
 		{"objectGoArrayReflect.swap: moves the cached wrappers with the elements", "objectGoArrayReflect", "swap", callsFn("setReflectValue")},
 		{"baseObject.export: caches before exporting the children", "baseObject", "export", callsFn("put")},
 		{"arrayObject.export: caches before exporting the children", "arrayObject", "export", callsFn("put")},
